@@ -14,6 +14,8 @@ import Dashu.Proofs.NT.PrimRootU128
 import Dashu.Proofs.NT.PrimRootU32All
 import Dashu.Proofs.NT.PrimRootU128Cbrt
 import Dashu.Proofs.NT.RootTablesGen
+import Dashu.Proofs.NT.PrimRootU128Total
+import Dashu.Proofs.NT.PrimRootU128CbrtTotal
 import Dashu.Proofs.NT.LehmerBuf
 import Dashu.Proofs.NT.LehmerBufB
 import Dashu.Proofs.NT.LehmerBufC
@@ -489,6 +491,30 @@ theorem sqrt_rem_driver_spec
     (prim_exact_of_total (bits := 64) (by decide) h64)
     (prim_exact_of_total (bits := 128) (by decide) h128) x
 
+/-- **the `u128` square-root step adds no overflow of its own** (Round 5): if `<u64>::normalized_sqrt_rem` answers on
+    every normalised `u64` (`2^62 ≤ y < 2^64`), then `u64::sqrt_rem` and `u128::sqrt_rem` answer on EVERY value of their
+    types — in the `u128` Karatsuba step `u += s1`, `q * q`, `s -= 1` stay in range and the remainder carry after the
+    `c < 0` repair is never negative (one decrement always suffices, `zimmermann_step`) -/
+theorem prim_sqrt_u128_total_of_u64 (h64 : ∀ y, 2 ^ 62 ≤ y → y < 2 ^ 64 → (normSqrtU64 y).isSome) :
+    (∀ y, y < 2 ^ 64 → (sqrtRemPrimBits 64 y).isSome) ∧ (∀ y, y < 2 ^ 128 → (sqrtRemPrimBits 128 y).isSome) := by
+  have h64' : ∀ y, 2 ^ 62 ≤ y → y < 2 ^ 64 → ∃ r, normSqrtU64 y = some r :=
+    fun y h1 h2 => Option.isSome_iff_exists.1 (h64 y h1 h2)
+  exact ⟨fun y hy => Option.isSome_iff_exists.2 (sqrtRemU64_total_of_norm h64' hy),
+         fun y hy => Option.isSome_iff_exists.2 (sqrtRemU128_total_of_u64 h64' hy)⟩
+
+/-- **`sqrt_rem` exactly as the driver runs it for the 64-bit word, ONE hypothesis left**: the `u64` table/Newton routine
+    `normalized_sqrt_rem` does not overflow on normalised operands (everything else — the `u128` step, both wrappers,
+    `sqrt_rem_42`, the Karatsuba recursion, `sqrt_rem_large` — is proved) -/
+theorem sqrt_rem_driver_spec_u64 (h64 : ∀ y, 2 ^ 62 ≤ y → y < 2 ^ 64 → (normSqrtU64 y).isSome) (x : Nat) :
+    IsRoot x 2 (sqrtRemReprM 64 (sqrtRemWordM 64) (sqrtRemDwordM 64) true x).1 ∧
+    (sqrtRemReprM 64 (sqrtRemWordM 64) (sqrtRemDwordM 64) true x).1 * (sqrtRemReprM 64 (sqrtRemWordM 64) (sqrtRemDwordM 64) true x).1
+      + (sqrtRemReprM 64 (sqrtRemWordM 64) (sqrtRemDwordM 64) true x).2 = x :=
+  sqrt_rem_driver_spec (prim_sqrt_u128_total_of_u64 h64).1 (prim_sqrt_u128_total_of_u64 h64).2 x
+
+/-- the hypothesis is met on concrete normalised operands (kernel evaluation of the mirrored `u64` Newton code) -/
+example : (normSqrtU64 (2 ^ 62)).isSome ∧ (normSqrtU64 (2 ^ 64 - 1)).isSome ∧ (normSqrtU64 (2 ^ 63 + 12345)).isSome ∧
+    (sqrtRemPrimBits 128 (2 ^ 128 - 1)).isSome := by decide +kernel
+
 /-- **`cbrt_rem` of `u8`, `u16`, `u32`, `u64`, `u128` is sound** on every value of the type (Round 5: incl. `u128` — the
     B = 2^22 cube-root step over the `u64` routine: `c1, r1` of the high 62 bits (both the 127-bit branch with
     `c >>= 1` and the 128-bit branch), `q, u = div_rem(r1·B + b2, 3·c1²)`, the signed remainder
@@ -504,6 +530,23 @@ theorem prim_cbrt_rem_sound {bits x : Nat} (hb : bits = 8 ∨ bits = 16 ∨ bits
   · exact cbrtRemNorm_sound normCbrtU64_sound hx h
   · exact cbrtRemU128_sound hx h
 
+/-- **the `u128` cube-root step adds no overflow of its own** (Round 5): if `<u64>::normalized_cbrt_rem` answers on every
+    normalised `u64` (`2^61 ≤ y < 2^64`), then `u64::cbrt_rem` and `u128::cbrt_rem` answer on EVERY value of their types —
+    `3·c1²`, `(c1 << KBITS) + q`, `q²`, `((3·c1) << KBITS) + q`, `t2`, the `as i128` casts (`t1, t2 < 2^127`) stay in
+    range, `q ≤ B + 7`, and the `while r < 0` descent ends within 8 steps (`cbrt_descent_bound`: the candidate is at most
+    8 above the floor root because `B ≤ 7·c1` on normalised operands) — with `prim_cbrt_rem_sound` the answer is the
+    floor cube root and its remainder -/
+theorem prim_cbrt_u128_total_of_u64 (h64 : ∀ y, 2 ^ 61 ≤ y → y < 2 ^ 64 → (normCbrtU64 y).isSome) :
+    (∀ y, y < 2 ^ 64 → (cbrtRemPrimBits 64 y).isSome) ∧ (∀ y, y < 2 ^ 128 → (cbrtRemPrimBits 128 y).isSome) := by
+  have h64' : ∀ y, 2 ^ 61 ≤ y → y < 2 ^ 64 → ∃ r, normCbrtU64 y = some r :=
+    fun y h1 h2 => Option.isSome_iff_exists.1 (h64 y h1 h2)
+  exact ⟨fun y hy => Option.isSome_iff_exists.2 (cbrtRemU64_total_of_norm h64' hy),
+         fun y hy => Option.isSome_iff_exists.2 (cbrtRemU128_total_of_u64 h64' hy)⟩
+
+/-- the hypothesis is met on concrete normalised operands, and the descent is really taken (kernel evaluation) -/
+example : (normCbrtU64 (2 ^ 61)).isSome ∧ (normCbrtU64 (2 ^ 64 - 1)).isSome ∧ (normCbrtU64 (2 ^ 63 + 12345)).isSome ∧
+    (cbrtRemPrimBits 128 (2 ^ 128 - 1)).isSome ∧ (cbrtRemPrimBits 128 (2 ^ 125)).isSome := by decide +kernel
+
 /-- the arithmetic core of the `u128` cube-root step, for any base `B`: with `A = c1³ + r1`, `r1·B + b2 = 3c1²·q + u`,
     `u < 3c1²`, the candidate `c = c1·B + q` has the exact signed remainder `u·B² + low − (3·c1·B + q)·q²` and is never
     below the root (`n < (c + 1)³`) — so the descent loop only ever has to go down -/
@@ -512,6 +555,13 @@ theorem cbrt_karatsuba_step {A b2 low c1 r1 q u B n : Nat} (hn : n = A * B ^ 3 +
     ((n : Int) - ((c1 * B + q : Nat) : Int) ^ 3 = ((u * B ^ 2 + low : Nat) : Int) - (((3 * c1 * B + q) * q ^ 2 : Nat) : Int)) ∧
     n < (c1 * B + q + 1) ^ 3 :=
   cbrt_step hn hA hlow hdiv hu
+
+/-- the hypotheses of `cbrt_karatsuba_step` are satisfiable (B = 10: 11456 = 11·10³ + 4·10² + 56, 11 = 2³ + 3, 34 = 12·2 + 10):
+    candidate 22 with remainder 11456 − 22³ = 808, and 11456 < 23³ -/
+example : ((11456 : Int) - ((2 * 10 + 2 : Nat) : Int) ^ 3 = ((10 * 10 ^ 2 + 56 : Nat) : Int) - (((3 * 2 * 10 + 2) * 2 ^ 2 : Nat) : Int)) ∧
+    11456 < (2 * 10 + 2 + 1) ^ 3 :=
+  cbrt_karatsuba_step (n := 11456) (A := 11) (b2 := 4) (low := 56) (c1 := 2) (r1 := 3) (q := 2) (u := 10) (B := 10)
+    (by norm_num) (by norm_num) (by norm_num) (by norm_num) (by norm_num)
 
 /-- non-vacuity: the `u128` routine answers through both branches (127-bit and 128-bit operands, with descent steps)
     and the hypotheses of the step are met by the values it computes -/
